@@ -134,6 +134,34 @@ def _sibling_first(jp, env, q: str) -> None:
         c.find_one([{"a": [1, {"a": 2}], "b": "ab"}, 1])
     except Exception:  # noqa: BLE001, S110
         pass
+    # ... and an environment built on the documented extension point `parser_class`, with a parser subclass that is MORE PERMISSIVE
+    # than the stock one (surrogate escapes are ordinary code points, any index is in range): what it accepted is its own business
+    perm = _SIBLINGS.get("permissive")
+    if perm is None:
+        try:
+            from jsonpath_rfc9535.parse import Parser  # noqa: PLC0415
+
+            class PermissiveParser(Parser):
+                def _is_high_surrogate(self, codepoint):  # noqa: ARG002
+                    return False
+
+                def _is_low_surrogate(self, codepoint):  # noqa: ARG002
+                    return False
+
+            class PermissiveEnv(jp.JSONPathEnvironment):
+                parser_class = PermissiveParser
+                max_int_index = 2 ** 80
+                min_int_index = -(2 ** 80)
+
+            perm = PermissiveEnv()
+        except Exception:  # noqa: BLE001
+            perm = False
+        _SIBLINGS["permissive"] = perm
+    if perm is not False and not isinstance(target, type(perm)):
+        try:
+            perm.compile(q).find_one([{"a": [1, {"a": 2}], "b": "ab"}, 1])
+        except Exception:  # noqa: BLE001, S110
+            pass
 
 
 def rec_compile(jp, q: str, env=None, extra: Optional[Dict[str, Any]] = None) -> Dict[str, Any]:
